@@ -58,6 +58,8 @@ func isSyncType(t types.Type, name string) bool {
 }
 
 // syncVar: the sync.WaitGroup / sync.Mutex variable a receiver term denotes (through & and *).
+var syncSiteObjs = map[string]types.Object{}
+
 func syncVar(t Term, typ string) types.Object {
 	for {
 		switch x := t.(type) {
@@ -70,6 +72,28 @@ func syncVar(t Term, typ string) types.Object {
 		case TVar:
 			if isSyncType(x.Obj.Type(), typ) {
 				return x.Obj
+			}
+		case TBuiltin:
+			// wg := new(sync.WaitGroup): the object allocated at that site
+			if x.Name == "new" && x.Type != nil && isSyncType(x.Type, typ) && x.Site != nil {
+				k := "new@" + itoa(int(x.Site.Pos()))
+				if o, ok := syncSiteObjs[k]; ok {
+					return o
+				}
+				o := types.NewVar(x.Site.Pos(), nil, k, x.Type)
+				syncSiteObjs[k] = o
+				return o
+			}
+		case TLit:
+			// &sync.WaitGroup{}
+			if x.Type != nil && isSyncType(x.Type, typ) && x.Fresh != 0 && x.Node != nil {
+				k := "lit@" + itoa(int(x.Node.Pos()))
+				if o, ok := syncSiteObjs[k]; ok {
+					return o
+				}
+				o := types.NewVar(x.Node.Pos(), nil, k, x.Type)
+				syncSiteObjs[k] = o
+				return o
 			}
 		case TSel:
 			// a field of a local struct that bundles the synchronisation objects (guard.wg)
